@@ -8,9 +8,14 @@ store.  With a limit of `n > 0` entries, room is made before a store: as long as
 entries are held, an entry whose deadline has passed is dropped — the one with the earliest
 deadline, the earliest stored among equals — and if there is none, the least recently used one.
 
+For the process-shared variant the allocator's outcomes are inputs (`StoreEnv`): while it reports low
+memory (`lowMem`) room is made by the same rule; a value that cannot be copied leaves the key absent;
+an allocation failure while inserting empties the cache.
+
 This is what "the reported key and trigger counts always equal those implied by the history under
-this rule" refers to; the driver's `J8` judge runs it over the implementation's history (no memory
-pressure: thread back-end or a large shared segment) and demands *identical* answers and counts.
+this rule" refers to; the driver's `J8` judge runs it over the implementation's history (for the
+process-shared cache with the low-memory answers computed by the harness from the allocator's own
+state) and demands *identical* answers and counts.
 -/
 namespace Cppcms.C08
 open Cppcms Cppcms.C07
@@ -52,12 +57,15 @@ def victim (r : Ref) (now : Time) : Option Key :=
   | some e => some e.key
   | none => r.entries.getLast?.map (·.key)
 
-def makeRoom : Nat → Ref → Time → Ref
-  | 0, r, _ => r
-  | fuel + 1, r, now =>
-    if r.limit > 0 ∧ r.entries.length ≥ r.limit then
+/-- Room is made before a store: as long as entries are held and either the allocator reports low
+memory (`mem`: its successive answers, `false` once exhausted) or `limit` (> 0) or more entries are
+held, the `victim` is dropped. -/
+def makeRoom : Nat → Ref → Time → List Bool → Ref
+  | 0, r, _, _ => r
+  | fuel + 1, r, now, mem =>
+    if r.entries.length > 0 ∧ (mem.headD false = true ∨ (r.limit > 0 ∧ r.entries.length ≥ r.limit)) then
       match victim r now with
-      | some k => makeRoom fuel (r.drop k) now
+      | some k => makeRoom fuel (r.drop k) now mem.tail
       | none => r
     else r
 
@@ -76,10 +84,15 @@ def step (r : Ref) : Op → Ref × Out
       else
         let r1 := r.drop k
         ({ r1 with entries := e :: r1.entries }, .hit e.val e.trigs e.deadline e.gen)
-  | .store now k v trigs d gen _ =>
-    let r1 := r.drop k
-    let r2 := makeRoom r1.entries.length r1 now
-    (r2.insertEntry k v trigs d gen, .done)
+  | .store now k v trigs d gen env =>
+    if env.copyFails then (r.drop k, .done)          -- the value cannot be stored: the key is simply absent afterwards
+    else match env.lateFails with
+      | some bumped =>                                  -- allocation failure while inserting: the cache empties itself
+        ({ r with entries := [], generation := if bumped && gen.isNone then r.generation + 1 else r.generation }, .done)
+      | none =>
+        let r1 := r.drop k
+        let r2 := makeRoom r1.entries.length r1 now env.lowMem
+        (r2.insertEntry k v trigs d gen, .done)
   | .rise t => ({ r with entries := r.entries.filter (fun e => !e.trigs.contains t) }, .done)
   | .remove k => (r.drop k, .done)
   | .clear => ({ r with entries := [] }, .done)
